@@ -559,11 +559,13 @@ func sendErrConnack(cli *client, err error) {
 	if packets.IsVersion3X(cli.version) && codeErr.Code > codes.V3NotAuthorized {
 		codeErr.Code = codes.NotAuthorized
 	}
-	cli.out <- &packets.Connack{
+	// client.write gives up when client.close is closed: a plain send would block for ever on a full
+	// client.out once writeLoop has gone
+	cli.write(&packets.Connack{
 		Version:    cli.version,
 		Code:       codeErr.Code,
 		Properties: getErrorProperties(cli, &codeErr.ErrorDetails),
-	}
+	})
 }
 
 func (client *client) connectWithTimeOut() (ok bool) {
@@ -651,13 +653,13 @@ func (client *client) connectWithTimeOut() (ok bool) {
 			}
 			// continue authentication (ContinueAuthentication is introduced in V5)
 			if code == codes.ContinueAuthentication {
-				client.out <- &packets.Auth{
+				client.write(&packets.Auth{
 					Code: code,
 					Properties: &packets.Properties{
 						AuthMethod: conn.Properties.AuthMethod,
 						AuthData:   authData,
 					},
-				}
+				})
 				// let readLoop read the client's answer
 				select {
 				case client.authStep <- struct{}{}:
